@@ -6,7 +6,10 @@ RULE = ("cases = corpus (D6 reproducers) + seeded malformed streams: single-fiel
         "offsets, array/bitset/run payload incl. zero runs and run overflow, truncation at/next to field boundaries, "
         "extension, bit flips) and short random byte strings; checked decoder only; on ok the harness evaluates every "
         "observer of the value (wf=), the model its WF predicate; non-trivial = any case whose stream has a run cookie or "
-        "whose decode is accepted; distinct by SHA-1 of the ops")
+        "whose decode is accepted; distinct by SHA-1 of the ops. 64-bit half (profile C13T): corruptions of valid portable "
+        "streams (count too small / too big / 2^63 / u64::MAX, keys swapped / duplicated / random, buckets reordered, empty "
+        "inner bitmap replaced / added / with a duplicate key, one inner stream corrupted by the 32-bit corruptions, "
+        "truncation, extension, bit flips) and random byte strings against RoaringTreemap::deserialize_from")
 
 
 def oracle(op, impl, model):
@@ -14,7 +17,7 @@ def oracle(op, impl, model):
     err is always allowed (a stricter decoder); ok only with a value all of whose observers agree (wf=true) and,
     when the model also accepts, the same number of unread bytes (never reads past the declared structure);
     panic, wf=false, or a different value (dump lines) never."""
-    if not op.startswith("deser"):
+    if not op.startswith(("deser", "tdeser")):
         return False
     if impl == "err":
         return True
@@ -26,13 +29,14 @@ def oracle(op, impl, model):
 
 
 CFG = {
-    "gen_profiles": ["C13"],
-    "cases": {"quick": 1200, "thorough": 12000},
+    "gen_profiles": ["C13", "C13T"],
+    "cases": {"quick": 2400, "thorough": 24000},
     "compare": "full",
     "oracle": oracle,
     "model_def": "Roaring.deserialize (lean/RoaringModel/Ser.lean: decodeHeader / decodeStore / deserializeG)",
     "rule": RULE,
-    "nontrivial": lambda body, mout: any("hex:3b30" in op[:40] for op in body) or any(o.startswith("ok rest") for o in mout),
+    "nontrivial": lambda body, mout: any("hex:3b30" in op[:40] for op in body) or any(o.startswith("ok rest") for o in mout)
+                  or any(op.startswith("note corruption=") and "cookie=run" in op for op in body),
     "targets": {
         "corrupted stream rejected": r"^deser chk .* => err$",
         "corrupted stream accepted as a well-formed value": r"^deser chk .* => ok rest=\d+ wf=true",
@@ -51,6 +55,19 @@ CFG = {
         "extension": r"^note corruption=extended ",
         "random byte strings": r"^note random-bytes",
         "reference decoders reject": r"^spec_decode .* => err$",
+        "64-bit: corrupted stream rejected": r"^tdeser chk .* => err$",
+        "64-bit: corrupted stream accepted as a well-formed value": r"^tdeser chk .* => ok rest=\d+ wf=true",
+        "64-bit: count too small (rest left unread)": r"^note corruption=count-small ",
+        "64-bit: count larger than the data (incl. 2^63, u64::MAX)": r"^note corruption=count-big ",
+        "64-bit: neighbouring keys swapped (descending)": r"^note corruption=key-swap ",
+        "64-bit: duplicate key": r"^note corruption=key-dup ",
+        "64-bit: key corruption": r"^note corruption=key ",
+        "64-bit: buckets reordered": r"^note corruption=buckets-reordered ",
+        "64-bit: empty inner bitmap (replaced / added / duplicate key)": r"^note corruption=empty-bucket-",
+        "64-bit: inner stream corrupted (32-bit corruptions)": r"^note corruption=inner ",
+        "64-bit: truncation": r"^note corruption=truncated of parts=",
+        "64-bit: extension": r"^note corruption=extended of parts=",
+        "64-bit: reference decoders reject": r"^tspec_decode .* => err$",
     },
     "gaps": [
         'C13_no_panic and C13_reads_declared (rest is a suffix, value independent of it, shorter input is EOF) are proved in full for every byte string',
